@@ -363,11 +363,17 @@ MInit(k) == /\ MHead(k, "Init") /\ Pop
             /\ Quiet
             /\ UNCHANGED <<st, mp, mg, bq, stored, panic>>
 
+\* (a piece that nobody fetches any more is announced to the connection tasks, see MKill)
+Released(s, s1, q) == q # None /\ s[q].k = "R" /\ s1[q].k = "M"
+Announce(rel) == bq' = IF rel /\ ~Bug("silentRelease")
+                       THEN [x \in Peers |-> IF h[x].alive THEN Append(bq[x], [t |-> "released"]) ELSE bq[x]]
+                       ELSE bq
 MChoke(k) == /\ MHead(k, "Choke") /\ Pop
              /\ mp' = [mp EXCEPT ![k] = [@ EXCEPT !.ch = TRUE]]
              /\ st' = Release(st, mp[k].pidx)
+             /\ Announce(Released(st, Release(st, mp[k].pidx), mp[k].pidx))
              /\ Quiet
-             /\ UNCHANGED <<mg, h, bq, stored, panic>>
+             /\ UNCHANGED <<mg, h, stored, panic>>
 
 MUnchoke(k, c) ==
   /\ MHead(k, "Unchoke") /\ Pop
@@ -481,9 +487,7 @@ MSyncStats(k) == /\ MHead(k, "SyncStats") /\ Pop
 MKill(k) == /\ MHead(k, "Kill") /\ Pop
             /\ LET rel == mp[k].pidx # None /\ st[mp[k].pidx].k # "H" IN
                /\ st' = IF rel THEN [st EXCEPT ![mp[k].pidx] = [k |-> "M", n |-> 0]] ELSE st
-               /\ bq' = IF rel /\ ~Bug("silentRelease")
-                         THEN [x \in Peers |-> IF h[x].alive THEN Append(bq[x], [t |-> "released"]) ELSE bq[x]]
-                         ELSE bq
+               /\ Announce(rel)
             /\ mp' = [x \in Conn \ {k} |-> mp[x]]
             /\ Quiet
             /\ UNCHANGED <<mg, h, stored, panic>>
